@@ -312,6 +312,20 @@ fn run(line: &str) -> String {
             let vi = VoronoiIntegrator::build(&[], None, anchor, width, dim, false);
             format!("{} {} {} {}", fv(v.anchor()), fv(v.width()), fv(vi.vh_anchor()), fv(vi.vh_width()))
         }
+        "face_collect_finalize" => {
+            // face_collect_finalize <ntri> (v0 v1 v2).. gen   -> area centroid normal   (real VoronoiFace init/collect/finalize)
+            let nt = a.u();
+            let tris: Vec<[DVec3; 3]> = (0..nt).map(|_| [a.v(), a.v(), a.v()]).collect();
+            let gen = a.v();
+            let planes = vec![HalfSpace::new(DVec3::Z, DVec3::new(0., 0., 0.3), None, None)];
+            let cell = ConvexCell::vh_new(gen, 0, planes, vec![], Dimensionality::ThreeD);
+            let mut f = meshless_voronoi::VoronoiFace::vh_init(&cell, 0);
+            for t in &tris {
+                f.vh_collect(t[0], t[1], t[2], gen);
+            }
+            let f = f.vh_finalize();
+            format!("{:e} {} {}", f.area(), fv(f.centroid()), fv(f.normal()))
+        }
         "space_cells" => {
             // space_cells anchor width max_cell_width -> cdim, then per cell: loc width
             let sp = vh::space::SpaceHook::new(a.v(), a.v(), a.f());
